@@ -257,6 +257,42 @@ func applyDocEdit(doc *JV, op Op) bool {
 		}
 		pay.Set("advances", &JV{K: 'a', A: []*JV{mk(op.S2), mk(op.S2), mk("3.333%")}})
 		return true
+	case "codeweird":
+		// unusual but legal spellings that normalisers must bring to a stable form in ONE pass
+		k := []string{"code", "series"}[int(op.I)%2]
+		if doc.Get("lines") == nil && doc.Get("code") == nil {
+			return false
+		}
+		doc.Set(k, JStr(op.S2))
+		return true
+	case "addrweird":
+		for _, pk := range []string{"supplier", "customer"} {
+			if p := doc.Get(pk); p != nil && p.Get("addresses") != nil && len(p.Get("addresses").A) > 0 {
+				a := p.Get("addresses").A[0]
+				a.Set([]string{"code", "region", "locality", "street"}[int(op.I)%4], JStr(op.S2))
+				return true
+			}
+		}
+	case "taxidweird":
+		if p := doc.Get("supplier"); p != nil && p.Get("tax_id") != nil && p.Get("tax_id").Get("code") != nil {
+			c := p.Get("tax_id").Get("code").Str()
+			if len(c) > 3 {
+				p.Get("tax_id").Set("code", JStr(" "+strings.ToLower(c[:2])+"-"+c[2:len(c)-2]+"."+c[len(c)-2:]+" "))
+				return true
+			}
+		}
+	case "amountprec":
+		// fixed amounts given with more precision than the currency
+		if l := pick(); l != nil {
+			l.Set("discounts", &JV{K: 'a', A: []*JV{{K: 'o', M: []JM{{"amount", JStr(op.S2)}, {"reason", JStr("fixed")}}}}})
+			pay := doc.Get("payment")
+			if pay == nil {
+				pay = &JV{K: 'o'}
+				doc.Set("payment", pay)
+			}
+			pay.Set("advances", &JV{K: 'a', A: []*JV{{K: 'o', M: []JM{{"description", JStr("fixed advance")}, {"amount", JStr(op.S2)}}}}})
+			return true
+		}
 	case "addons":
 		if doc.Get("lines") == nil || doc.Get("supplier") == nil {
 			return false
@@ -278,7 +314,7 @@ func applyDocEdit(doc *JV, op Op) bool {
 	return false
 }
 
-var editKinds = []string{"qty", "price", "rmline", "dupline", "note", "rounding", "custname", "code", "breakdown", "linedisc", "linecharge", "docdisc", "advances"}
+var editKinds = []string{"qty", "price", "rmline", "dupline", "note", "rounding", "custname", "code", "breakdown", "linedisc", "linecharge", "docdisc", "advances", "codeweird", "addrweird", "taxidweird", "amountprec"}
 
 func genEdit(r *rand.Rand, id int) Op {
 	k := Pick(r, editKinds)
@@ -300,6 +336,12 @@ func genEdit(r *rand.Rand, id int) Op {
 		op.S2 = Pick(r, []string{"10%", "12.5%", "3.33%", "0.5%"})
 	case "advances":
 		op.S2 = Pick(r, []string{"12.5%", "33.3%", "7.77%"})
+	case "codeweird":
+		op.S2 = Pick(r, []string{"A -", " 12 ", "ab--cd", "X  Y", "-A-", "a.b.", "1/ 2", "F1 /", "ñ-1", "A_ B"})
+	case "addrweird":
+		op.S2 = Pick(r, []string{" 187", "(0187)", "28 002", " Madrid ", "  ", "A  B", "c/ Mayor , 1 "})
+	case "amountprec":
+		op.S2 = Pick(r, []string{"10.12345", "0.005", "1.2349", "3.14159265"})
 	}
 	return op
 }
